@@ -2221,7 +2221,7 @@ fn create_parser_thread(
                                 let buf_reader = LowMarkBufReader::new(
                                     fi,
                                     BUFREADER_CAPACITY,
-                                    DLT_MAX_STORAGE_MSG_SIZE,
+                                    DLT_MAX_STORAGE_MSG_SIZE + 4, // + 4 as the parser checks whether the next msg header follows
                                 );
                                 get_dlt_message_iterator(
                                     file_ext,
